@@ -1584,7 +1584,7 @@ def gen_tracked_circuit(rng, width, ncmds, opts=None):
         return [w for w in r.pool if not (w.lin and w.used) and w not in table and (pred is None or pred(w.t))]
 
     def gate_args(k, pending=()):
-        """k arguments: tracked indices (distinct) and free wires, with their types (`pending`: nodes of the
+        """k arguments: tracked indices (a copyable one possibly twice) and free wires, with their types (`pending`: nodes of the
         `extend` call being assembled — their outputs cannot be named yet)"""
         live = [i for i, w in enumerate(table) if w is not None]
         rng.shuffle(live)
@@ -1592,7 +1592,14 @@ def gen_tracked_circuit(rng, width, ncmds, opts=None):
         for _ in range(k):
             fw = free_wires()
             held = [w for w in table if w is not None and copyable(w.t) and not (w.w[0] == "out" and w.w[1] in pending)]
-            if held and rng.random() < 0.12:
+            dup = [a for a in args if isinstance(a, int) and copyable(table[a].t)]
+            if dup and rng.random() < 0.2:
+                # the same index again in one command (a copyable value used twice): both arguments denote the wire
+                # tracked BEFORE the command, the index ends up at the output of the later position
+                i = rng.choice(dup)
+                args.append(i)
+                tys_.append(table[i].t)
+            elif held and rng.random() < 0.12:
                 # a wire that is (also) tracked, passed EXPLICITLY: an ordinary use of a copyable value; the index
                 # keeps denoting it
                 w = rng.choice(held)
